@@ -48,6 +48,15 @@ func buildType(v interface{}) reflect.Type {
 				}
 				tag += fmt.Sprintf(`validate:%q`, s)
 			}
+			// further tags, read with the StructTag / ValidatorTag options
+			for _, k := range []string{"alt", "valt"} {
+				if s, ok := fm[k].(string); ok {
+					if tag != "" {
+						tag += " "
+					}
+					tag += fmt.Sprintf(`%s:%q`, k, s)
+				}
+			}
 			emb, _ := fm["emb"].(bool) // an embedded (anonymous) field
 			sf = append(sf, reflect.StructField{Name: fm["n"].(string), Type: buildType(fm["ty"]), Tag: reflect.StructTag(tag), Anonymous: emb})
 		}
@@ -343,6 +352,11 @@ func kUnpack(c J) interface{} {
 		if err := cfg.Merge(buildValue(mj["b"]), buildOpts(mj["opts"])...); err != nil {
 			return J{"create": errKind(err)}
 		}
+	}
+	if w, ok := c["warmOpts"]; ok && w != nil {
+		// the same type unpacked once before under other options: what one call learns about a type must not leak
+		// into the next
+		_ = cfg.Unpack(reflect.New(t).Interface(), buildOpts(w)...)
 	}
 	before := mustJSON(shallowKey(target.Elem()))
 	var arg interface{} = target.Interface()
